@@ -391,7 +391,8 @@ def r6_3(run):
     rets = sorted(r.returns(), key=lambda e: e.seq)
     w = run.where(f_nb, f_nb.node)
     last = rets[-1] if rets else None
-    fb = last is not None and last.value == ("call", ("f", f_np.qualname), (("n", "indices"), ("star", ("n", va))), ()) and not last.cond
+    fb = last is not None and last.value == ("call", ("f", f_np.qualname), (("n", "indices"), ("star", ("n", va))), ()) \
+        and all(not norm_cond(c, p_)[1] for c, p_ in last.cond)      # reached whenever no earlier branch returned
     dense = [e for e in rets if any(x[0] == "call" and x[1][0] == "f" and x[1][1].endswith("._sum_values_by_index") for x in walk(e.value))]
     bound = bool(dense) and all(any(contains(c, ("call", ("f", IT + ".max_nb"), (("n", "indices"),), ())) or "max" in tshow(c) for c, p in e.cond) for e in dense)
     run.ob("numba|falls-back-outside-bound", fb and bound,
